@@ -55,9 +55,9 @@ def model(tier, rep):
     return p, sc, T
 
 
-def _side(impl, exe, script, nscripts, ncalls, T, tier):
+def _side(impl, exe, script, nscripts, ncalls, T, tier, kinds):
     tasks, outs = [], []
-    for k in KINDS:
+    for k in kinds:
         tp = os.path.join(vlib.workdir("traces"), "scope_%s_%s_%s.ndjson" % (impl, k, tier))
         tasks.append(([exe, "replay", k, str(len(T["names"])), str(T["MaxTok"]), script], tp))
         outs.append(tp)
@@ -67,7 +67,7 @@ def _side(impl, exe, script, nscripts, ncalls, T, tier):
         got = sum(1 for _ in open(tp, "rb"))
         if not unsupported and got != nscripts + ncalls:
             raise vlib.ModelFailure("scope driver (%s): %d lines for %d scripts with %d calls" % (impl, got, nscripts, ncalls))
-    tv = vlib.tv_parallel("ScopeTrace.tla", "ScopeTrace.cfg", outs, "scope_tv_%s_%s" % (impl, tier), par=2, heap="1g")
+    tv = vlib.tv_parallel("ScopeTrace.tla", "ScopeTrace.cfg", outs, "scope_tv_%s_%s" % (impl, tier), par=3, heap="1g")
     return tv, unsupported
 
 
@@ -78,13 +78,14 @@ def pipeline(tier, rep, calibrate=None):
     have = probes()
     script, sc, T = model(tier, rep)
     ncalls = sum(len(s) for s in sc)
-    jobs = [dict(src="scope_driver.cpp", out="scope_etl")]
+    kinds = KINDS + (("fref",) if have[1] else ())
+    jobs = [dict(src="scope_driver.cpp", out="scope_etl", flags=["-DSCOPE_FREF=%d" % have[1]])]
     if calibrate:
-        jobs.append(dict(src="scope_driver.cpp", out="scope_std", flags=["-DVH_STD"], include_repo=False))
+        jobs.append(dict(src="scope_driver.cpp", out="scope_std", flags=["-DVH_STD", "-DSCOPE_FREF=1"], include_repo=False))
     bins = vlib.build_many(jobs)
     with ThreadPoolExecutor(max_workers=2) as ex:
-        fe = ex.submit(_side, "etl", bins[0], script, len(sc), ncalls, T, tier)
-        fs = ex.submit(_side, "std", bins[1], script, len(sc), ncalls, T, tier) if calibrate else None
+        fe = ex.submit(_side, "etl", bins[0], script, len(sc), ncalls, T, tier, kinds)
+        fs = ex.submit(_side, "std", bins[1], script, len(sc), ncalls, T, tier, KINDS + ("fref",)) if calibrate else None
         tv, unsup = fe.result()
         ctv, cunsup = fs.result() if fs else (None, [])
     if calibrate:
@@ -95,7 +96,7 @@ def pipeline(tier, rep, calibrate=None):
         if cunsup:
             raise vlib.ModelFailure("calibration build lacks operations: %s" % cunsup)
         rep.cov["modules"]["Scope"]["calibration_events_ref"] = ctv["events"]
-    rep.add_tv("Scope", tv, len(sc) * len(KINDS))
+    rep.add_tv("Scope", tv, len(sc) * len(kinds))
     rep.cov["modules"]["Scope"]["not_drivable"] = unsup + ["%s: does not compile" % PROBES[n] for n in sorted(PROBES) if not have[n]]
     rep.cov["modules"]["Scope"]["probes"] = {PROBES[n]: have[n] for n in PROBES}
     return tv
